@@ -7,10 +7,10 @@
   * `docVersion d`      — the version a document declares (`none`: no integer `version` key);
   * `effectiveVersion d` — the version `convert_dict` is documented to assume: a document without a `version`
                            key is a version-1 document;
-  * `writesKey`, `wfHistory` — the decidable well-formedness predicate: no mapping of the history has an entry
-                           for the top-level key `version` (neither `version` nor `version._mapper`);
-  * `upgrade`           — the documented process: while the document's *own current* version `v` is at most
-                           `len ms`, apply mapping number `v` (`ms[v-1]`) and move to `v+1`.
+  * `writesKey`, `wfHistory` — does a mapping have an entry for the top-level key `version` (since typedpy commit
+                           f017e49 no theorem needs this restriction any more; kept for the case statistics);
+  * `upgrade`           — the documented process: while the document's *own current* (effective) version `v` is at
+                           most `len ms`, apply mapping number `v` (`ms[v-1]`) and move to `v+1`.
   * Bool laws (`versionLaw`, `sameResult`) that the driver evaluates on what the real code returned.
 -/
 import TypedpyModel.Sem.Convert
@@ -46,14 +46,14 @@ def stepSpec (m : Mapping) (v : Int) (d : Json) : R Json :=
   bindE (convert m d) fun d' =>
     match d' with
     | .obj kvs => .ok (.obj (set "version" (.int (v + 1)) kvs))
-    | _ => .error .attrErr
+    | _ => .error .typeErr
 
 /-- the documented upgrade process, driven by the document's own current version (fuel = number of steps
     allowed; `len ms` always suffices) -/
 def upgrade (ms : List Mapping) : Nat → Json → R Json
   | 0, d => .ok d
   | n + 1, d =>
-    match docVersion d with
+    match effectiveVersion d with
     | none => .ok d
     | some v =>
       if v < 1 then .ok d
@@ -63,9 +63,9 @@ def upgrade (ms : List Mapping) : Nat → Json → R Json
 
 /-! ### executable laws for the oracle (evaluated by the driver on the real code's results) -/
 
-/-- result version is `len ms + 1` -/
+/-- result version is `len ms + 1` (a result without `version` key counts as version 1) -/
 def versionLaw (ms : List Mapping) (r : Json) : Bool :=
-  match docVersion r with
+  match effectiveVersion r with
   | some v => v == (ms.length : Int) + 1
   | none => false
 
@@ -77,7 +77,7 @@ def sameResult : R Json → R Json → Bool
 
 /-- the start version is one `convert_dict` is specified for -/
 def inDomain (ms : List Mapping) (d : Json) : Bool :=
-  match docVersion d with
+  match effectiveVersion d with
   | some v => decide (1 ≤ v) && decide (v ≤ (ms.length : Int) + 1)
   | none => false
 
